@@ -436,6 +436,22 @@ def drawing_record(backend, tl, doc, opts, data, kind):
     return rec
 
 
+def pinned_cases(rng, ns_min):
+    """Fixed datasets that are drawn on every run: the last datum lies a fraction of a millisecond after a tick boundary of
+    the data-derived (niced) axis domain - seconds, minutes, hours and days."""
+    out = []
+    for first, last in ((dt.datetime(2021, 6, 1, 10, 0, 0, 250000), dt.datetime(2021, 6, 1, 10, 3, 0, 900)),
+                        (dt.datetime(2021, 6, 1, 10, 0, 0, 250000), dt.datetime(2021, 6, 1, 13, 0, 0, 999)),
+                        (dt.datetime(2021, 6, 1, 1, 0, 0), dt.datetime(2021, 6, 3, 0, 0, 0, 400)),
+                        (dt.datetime(2021, 6, 1, 10, 0, 1, 500000), dt.datetime(2021, 6, 1, 10, 0, 9, 7))):
+        data = [{"time": first + (last - first) * f, "width": 30, "id": i + 1, "text": "p%d" % i} for i, f in enumerate((0, 0.31, 0.64, 1))]
+        data[-1]["time"] = last
+        opts = make_options(rng, "time", data, ns_min=ns_min)
+        opts.pop("domain", None)
+        out.append((data, opts, "time"))
+    return out
+
+
 def draw_case(rng, ns_min=0, kind=None):
     kind = kind or rng.choice(["linear", "time", "time"])
     data = make_dataset(rng, kind)
@@ -810,8 +826,9 @@ def main():
     if mode == "draw":
         GAPFRAC[0] = job.get("gapfrac", 0.12)
         TIMEVALS[0] = bool(job.get("timevals", False))
-        for _ in range(job["count"]):
-            data, opts, kind = draw_case(rng, ns_min=job.get("ns_min", 0))
+        cases = pinned_cases(rng, job.get("ns_min", 0)) if job.get("pinned") else []
+        for k in range(job["count"]):
+            data, opts, kind = cases[k] if k < len(cases) else draw_case(rng, ns_min=job.get("ns_min", 0))
             try:
                 both = export_both(data, opts, kind)
                 if dt.date.today() != TODAY and any(isinstance(d["time"], dt.time) for d in data):
